@@ -91,6 +91,7 @@ structure ReadOpts where
   stop : Nat := 0
   thr : List (Nat × String) := []
   cbPdu : Bool := false
+  tog : Nat := 0          -- api=next: `set_extract_raw_pdus(!raw)` after this many delivered packets (0 = never)
 
 def parseReadOpts (ws : List String) : ReadOpts :=
   let thr := match kvOf ws "thr" with
@@ -100,7 +101,7 @@ def parseReadOpts (ws : List String) : ReadOpts :=
       | _ => none)
   { api := (kvOf ws "api").getD "next", filt := (kvOf ws "filt").getD "none", raw := kvOf ws "raw" == some "1",
     maxp := ((kvOf ws "max").bind (·.toNat?)).getD 0, stop := ((kvOf ws "stop").bind (·.toNat?)).getD 0,
-    thr := thr, cbPdu := kvOf ws "cb" == some "pdu" }
+    thr := thr, cbPdu := kvOf ws "cb" == some "pdu", tog := ((kvOf ws "tog").bind (·.toNat?)).getD 0 }
 
 def usesFilter (o : ReadOpts) : Bool := o.filt == "cfg" || o.filt == "ctor" || o.filt == "post"
 
@@ -141,7 +142,17 @@ def modelRead (st : MState) (ws : List String) : String :=
       | some handler =>
         let drain := fun (s : Source) => sniffAll st.method filter handler fuel s
         if o.api == "next" then
-          let r := drain src
+          -- `next_packet` selects the handler on every call from the link type and the CURRENT raw mode: with tog=K the
+          -- first K deliveries use this read's mode, everything after them the other one
+          let r1 := if o.tog == 0 then drain src else sniffAll st.method filter handler o.tog src
+          let r := if o.tog == 0 || r1.1.length < o.tog then r1 else
+            match selectHandler (!o.raw) op.dlt with
+            | .error e => (r1.1, End.escape (Exc.ofName e), r1.2.2)
+            | .ok hk2 => match runHandler (parseOracle st) hk2 with
+              | none => r1
+              | some h2 =>
+                let r2 := sniffAll st.method filter h2 fuel r1.2.2
+                (r1.1 ++ r2.1, r2.2.1, r2.2.2)
           s!"{pre} pkts={joinOr (r.1.map (showPkt true))} end={showEnd r.2.1} rest=- end2=- live=0"
         else
           let isLoop := o.api == "loop"
@@ -319,7 +330,18 @@ def checkRead (st : OState) (ws : List String) (ow : List String) : String :=
       else
         let (fr, _) := survivors st
         let fr := fr.filter (fun f => !usesFilter o || f.ann.m)
-        let exps := fr.map (fun f => (expectOf dlt o.raw f.ann, expectTs f))
+        -- tog=K (api=next): the raw mode in force for a frame is the one set when `next_packet` reaches it — this read's
+        -- mode until K packets were delivered, the other one afterwards
+        let rec goExp (fs : List OFrame) (mode : Bool) (cnt : Nat) : List (Expect × Option String) :=
+          match fs with
+          | [] => []
+          | f :: rest =>
+            let e := expectOf dlt mode f.ann
+            let delivered := match e with | .pkt _ => true | _ => false
+            let cnt' := if delivered then cnt + 1 else cnt
+            let mode' := if o.tog != 0 && o.api == "next" && delivered && cnt' == o.tog then !mode else mode
+            (e, expectTs f) :: goExp rest mode' cnt'
+        let exps := goExp fr o.raw 0
         if exps.any (fun e => match e.1 with | .open_ => true | _ => false) then "unspecified" else
         let want := exps.filterMap (fun e => match e.1 with | .pkt d => some (d, e.2) | _ => none)
         let first := splitItems pk
